@@ -18,6 +18,8 @@ mod w3stat;
 mod w4;
 mod w4agents;
 mod w4gen;
+mod w5;
+mod w5gen;
 mod w4probe;
 mod probe;
 mod shapes_gen;
